@@ -38,8 +38,10 @@ THEOREMS = [
     "Klong.C16.table_merge_spec",
 ]
 
-KEYS_FLAT = ["a", "b", "c", "d"]
-KEYS_NESTED = ["p/a", "p/b", "q/r/a", "q/r/b", "q/c"]
+# look-alike keys are different keys: a key and the same key with a suffix a writer might use for a scratch
+# file, and texts that differ only in Unicode normalisation form (NFC / NFD, OHM SIGN / GREEK OMEGA)
+KEYS_FLAT = ["a", "b", "c", "d", "a.tmp", "a~", "caf\u00e9", "cafe\u0301", "\u2126", "\u03a9"]
+KEYS_NESTED = ["p/a", "p/b", "q/r/a", "q/r/b", "q/c", "p/a.tmp", "q/r/a.bak"]
 
 
 class _Clock:
@@ -309,7 +311,15 @@ def run_klong_kvs(ctx, drv, nseq, length):
                     oracle[k] = canon(v)
                     ctx.bump("kvs:set")
                     if drv:
-                        data = open(os.path.join(root, k), "rb").read()
+                        try:
+                            data = open(os.path.join(root, k), "rb").read()
+                        except OSError as e:
+                            # the value is not in the file the model keeps for this key: the tie is broken for the
+                            # rest of this history (the get-after-set oracle goes on without the model)
+                            ctx.mismatch("Klong.C16.step vs KeyValueStorage.set (file of the key)", case,
+                                         f"file {k!r} holds the pickled value", f"{type(e).__name__}: {e}")
+                            drv = None
+                            continue
                         ev = sorted(before - set(store.cache.file_futures) - {k})
                         m = drv.ask(f"update name={k} data={data.hex()} ev={','.join(ev)}")
                         impl = "applied " + _digest(store.cache, root)
